@@ -1,6 +1,8 @@
 package harness
 
 import (
+	"os"
+	"net"
 	"context"
 	"encoding/xml"
 	"fmt"
@@ -291,7 +293,16 @@ func runC07(rc *RC) {
 			if errAt < 0 {
 				errAt = in.idx
 			}
-			switch ch.Int("handler", 4) {
+			switch ch.Int("handler", 6) {
+			case 4, 5:
+				// what a handler that relays to another session or connection returns when that one is gone: errors that
+				// wrap the sentinels this session uses for its own streams and for its own shutdown
+				sentinels := []error{xmpp.ErrOutputStreamClosed, xmpp.ErrInputStreamClosed, context.Canceled, context.DeadlineExceeded, net.ErrClosed, io.ErrUnexpectedEOF, io.ErrClosedPipe, os.ErrDeadlineExceeded}
+				err := sentinels[ch.Int("handler", len(sentinels))]
+				if ch.Chance("handler", 1, 2) {
+					return err
+				}
+				return fmt.Errorf("relay to other session: %w", err)
 			case 0:
 				// what a handler that decodes its payload returns when the element ends early
 				return fmt.Errorf("harness: decoding payload: %w", io.EOF)
